@@ -429,9 +429,10 @@ Section Programs.
   Definition multi_prog (tb : tbl) (b : N) : list instr :=
     [Acq (plock tb); TblCopy 2 tb; Rel (plock tb); ForSnap 2 3 b].
   (* registry.register(c): with self._lock: names = describe(); duplicates? raise; record *)
+  (* registry.register(c): ... self._collector_to_names[c] = self._collector_to_names.get(c, []) + names  (the get is the second lookup) *)
   Definition register_prog (rb : reg) (c : N) : list instr :=
     [Acq (SLock R_LOCK); TblLookup rb RN c; JmpIf false rb 1; Raise;
-     TblInsert RN c (IConst c); TblInsert RC c (IConst c); Rel (SLock R_LOCK)].
+     TblInsert RN c (IConst c); TblLookup rb RC c; TblInsert RC c (IConst c); Rel (SLock R_LOCK)].
   (* registry.unregister(c): with self._lock: for name in self._collector_to_names[c]: del ...; del ... *)
   Definition unregister_prog (rb : reg) (c : N) : list instr :=
     [Acq (SLock R_LOCK); TblLookup rb RC c; JmpIf true rb 1; Raise;
